@@ -399,23 +399,23 @@ def legs(ctx):
                    exhaustive=True, bound='all 65536 integers x 0/1 of 3 types'))
     ls = 2 if q else 3
     ld = 1 if q else 3
-    out.append(Leg('unary-single', [(4, ls, e, e + 2, not q) for e in range(0, 256, 2)], work_unary_float, exhaustive=True,
+    out.append(Leg('unary-single', [(4, ls, e, e + 2, not q) for e in range(0, 256, 2)], work_unary_float, exhaustive=False,
                    bound='%d mantissa patterns x all 256 exponent bytes x 2 signs; 0/1 of 3 types%s' % (
                        len(mbf.mant_set(24, ls)), '' if q else ' + 4 non-canonical zeros')))
-    out.append(Leg('unary-double', [(8, ld, e, e + 1, not q) for e in range(0, 256)], work_unary_float, exhaustive=True,
+    out.append(Leg('unary-double', [(8, ld, e, e + 1, not q) for e in range(0, 256)], work_unary_float, exhaustive=False,
                    bound='%d mantissa patterns x all 256 exponent bytes x 2 signs; 0/1 of 3 types%s' % (
                        len(mbf.mant_set(56, ld)), '' if q else ' + 4 non-canonical zeros')))
     for fmt in (mbf.SNG, mbf.DBL):
         ds = _c04.addsub_ds(fmt, q)
         shards = [(fmt.size, q, d, e) for d in ds for e in _c04.addsub_bases(d)]
         nm = len(_c04.addsub_mants(fmt, q))
-        out.append(Leg('commute-' + fmt.name, shards, work_commute, exhaustive=True, bound=(
+        out.append(Leg('commute-' + fmt.name, shards, work_commute, exhaustive=False, bound=(
             '%d x %d mantissa pairs x exponent differences %s x base exponent bytes {1,2,80h,254-d,255-d} x 4 sign '
             'combinations x {+,*} in both orders' % (nm, nm, _c04._ranges(ds)))))
     vs = value_sets(q)
     step = 8 if q else 6
     out.append(Leg('mixed', [(q, lo, min(lo + step, len(vs))) for lo in range(0, len(vs), step)], work_mixed,
-                   exhaustive=True, bound='all ordered pairs of %d values (%d integers, %d singles, %d doubles): 9 type '
+                   exhaustive=False, bound='complete enumeration of all ordered pairs of %d values (%d integers, %d singles, %d doubles): 9 type '
                    'pairings x {+,-,*,/}' % (len(vs), sum(1 for s, _ in vs if s == 2), sum(1 for s, _ in vs if s == 4),
                                              sum(1 for s, _ in vs if s == 8))))
     return out
